@@ -57,7 +57,7 @@ def notes_entries(fam):
         def grab(key):
             mm = re.search(r'(?<![a-z_])' + key + r'\W*[:=]\W*"(.*?)"(?=\s*\.?\s*(\*|$|level_note|technique|text))', body)
             return mm.group(1).strip() if mm else None
-        lvl = re.search(r"level\W*:\W*`?(\w+)`?", body)
+        lvl = re.search(r"level\W*:\W*`?(exploration|fault_enumeration|model_checking|proof|translation_validation|other)\b", body)
         out[pid] = {"level": lvl.group(1) if lvl else "model_checking", "text": grab("level text") or grab("text"), "note": grab("level_note"), "technique": grab("technique")}
     return out
 
@@ -110,5 +110,7 @@ del m["engines_extra"]
 for fam in sorted(set(FAM_OF[p] for p in CHECKS if p in FAM_OF)):
     m["engines"].append({"name": fam, "path": "tools/fam_%s.py" % fam, "serves_properties": sorted(p for p in CHECKS if FAM_OF.get(p) == fam),
                          "kind_free_text": "TLA+ spec + TLC + Go harness under harness/%s, see notes/%s.md" % (fam, fam)})
+for c in m["checks"]:
+    assert c["level_claimed"]["category"] in ("exploration", "fault_enumeration", "model_checking", "proof", "translation_validation", "other"), c
 json.dump(m, open(os.path.join(V, "MANIFEST.json"), "w"), indent=1)
 print("MANIFEST.json: %d checks, %d not_applicable" % (len(checks), len(m["not_applicable"])))
